@@ -56,7 +56,11 @@ func (g *rpGen) block(depth int, pfx string, n int) []Sx {
 			if g.clean {
 				name = fmt.Sprintf("/g%d", gi)
 			}
-			body := g.block(depth+1, pfx+"/g"+fmt.Sprint(gi), g.r.Range(0, 3))
+			sub := pfx + "/g" + fmt.Sprint(gi)
+			if depth == 0 && g.r.Chance(1, 8) { // a top-level group with a root prefix
+				name, sub = g.r.Pick([]string{"", "/"}), pfx
+			}
+			body := g.block(depth+1, sub, g.r.Range(0, 3))
 			ss = append(ss, L(A("group"), S(name), LS(g.mws(2)), LS(body)))
 		default:
 			ss = append(ss, g.route(pfx))
@@ -85,6 +89,9 @@ func (g *rpGen) route(pfx string) Sx {
 		later = g.mws(2)
 	}
 	s := L(A("route"), SL([]string{"GET"}), S(reg), I(mainID), LS(g.mws(2)), LS(later), S(""))
+	if g.r.Chance(1, 4) { // the route carries its middleware when it is added (NewRoute().Use().AttachTo / AddRoute)
+		s.List = append(s.List, A("pre"))
+	}
 	g.reqs = append(g.reqs, L(S("GET"), S(pfx+path), L()))
 	g.routeIx++
 	return s
